@@ -84,7 +84,7 @@ func checkAssignBeforePersist(p *core.Program, r *core.Report) {
 			return false
 		}
 		// looked up is <the numbered bundle>.ID()
-		idc, ok := core.CallArgs(c)[0].(*ssa.Call)
+		idc, ok := core.Arg(c, 0).(*ssa.Call)
 		if !ok || !core.NameIs(core.CalleeName(idc), bp7+".Bundle.ID") || len(updCalls) == 0 {
 			return false
 		}
@@ -92,7 +92,7 @@ func checkAssignBeforePersist(p *core.Program, r *core.Report) {
 		if ld, isLd := recv.(*ssa.UnOp); isLd && ld.Op == token.MUL {
 			recv = ld.X // value receiver: ID is called on *bndl
 		}
-		return recv == core.CallArgs(updCalls[0])[0]
+		return recv == core.Arg(updCalls[0], 0)
 	}
 	isPush := func(i ssa.Instruction) bool {
 		for _, pc := range pushCalls {
@@ -137,9 +137,9 @@ func checkAssignBeforePersist(p *core.Program, r *core.Report) {
 	}
 	// the descriptor is built from the bundle as it is after the update
 	for _, dc := range core.CallsTo(sb, routingPkg+".NewBundleDescriptorFromBundle") {
-		arg := core.CallArgs(dc)[0]
+		arg := core.Arg(dc, 0)
 		ld, ok := arg.(*ssa.UnOp)
-		okLoad := ok && len(updCalls) > 0 && ld.X == core.CallArgs(updCalls[0])[0] &&
+		okLoad := ok && len(updCalls) > 0 && ld.X == core.Arg(updCalls[0], 0) &&
 			core.MustPassBefore(ld, func(i ssa.Instruction) bool { return i == ssa.Instruction(updCalls[0]) })
 		r.Check(okLoad, "assign-before-persist/"+fname(sb)+"/descriptor-from-updated-bundle", "the descriptor (and with it the store key) is created from the very bundle IdKeeper.update has numbered", p.Pos(dc.Pos()), "", "the descriptor's bundle is not a copy taken after update(bndl)")
 	}
